@@ -40,3 +40,4 @@ LEVEL_NOTE = ("Invariant preservation excludes cif_loop_set_category; refinement
               "findings F30, F32 are genuine counterexamples). Trusted: Lean kernel, the schema translator, SQLite's enforcement of the schema, "
               "the executor/generator/oracle.")
 TECHNIQUE = "Lean 4 proof (invariant by induction over API histories) about an executable relational model tied to the sources by translated schema facts and differential execution"
+NOT_CLAIMED = "model being updated to follow /repo fix 95b7b25 (branch gF)"
